@@ -44,11 +44,15 @@ type c39Puppet struct {
 	name      string
 	nextIdx   uint32
 	confirmed map[uint32]c39Confirm // my relay index -> pair I confirmed to R
-	requested map[uint32]netip.Addr // relay index I chose in a request of mine -> the target address I asked for
-	legByRIdx map[uint32]netip.Addr // index R gave me for a leg I requested (ResponderRelayIndex of its response) -> the target of that leg
-	askedByR  map[uint32]c39Confirm // InitiatorRelayIndex of a request R sent me -> the pair R named in it
-	pendingRq []*NebulaControl      // CreateRelayRequests R sent me that I have not answered
-	fromR     []uint32              // relay indexes R told me about (ResponderRelayIndex of responses / InitiatorRelayIndex of requests)
+	requested map[uint32]netip.Addr // relay index I chose in a request of mine -> the target address I asked for (latest)
+	// A hostile peer may use one of its own index values for several requests / confirmations; every pair it ever attached
+	// to an index is a pair it negotiated on that index.
+	requestedAll map[uint32][]netip.Addr
+	confirmedAll map[uint32][]c39Confirm
+	legByRIdx    map[uint32]netip.Addr // index R gave me for a leg I requested (ResponderRelayIndex of its response) -> the target of that leg
+	askedByR     map[uint32]c39Confirm // InitiatorRelayIndex of a request R sent me -> the pair R named in it
+	pendingRq    []*NebulaControl      // CreateRelayRequests R sent me that I have not answered
+	fromR        []uint32              // relay indexes R told me about (ResponderRelayIndex of responses / InitiatorRelayIndex of requests)
 }
 
 func c39Ctl(v cert.Version, typ NebulaControl_MessageType, ini, resp uint32, from, to netip.Addr) []byte {
@@ -118,7 +122,7 @@ func TestVerifC39(t *testing.T) {
 				}
 				id := ca.issue(vs, fmt.Sprintf("p%d", i+1), nets, "", nil)
 				pp := nw.AddPuppet(id, []*vnCA{ca}, fmt.Sprintf("192.0.2.%d:4242", i+1), ver)
-				cp := &c39Puppet{p: pp, name: id.Name, nextIdx: uint32(0x7000 + 0x100*i), confirmed: map[uint32]c39Confirm{}, requested: map[uint32]netip.Addr{}, askedByR: map[uint32]c39Confirm{}, legByRIdx: map[uint32]netip.Addr{}}
+				cp := &c39Puppet{p: pp, name: id.Name, nextIdx: uint32(0x7000 + 0x100*i), confirmed: map[uint32]c39Confirm{}, requested: map[uint32]netip.Addr{}, requestedAll: map[uint32][]netip.Addr{}, confirmedAll: map[uint32][]c39Confirm{}, askedByR: map[uint32]c39Confirm{}, legByRIdx: map[uint32]netip.Addr{}}
 				cp.tun = pp.Handshake(rn)
 				if cp.tun == nil {
 					r.Inconclusive(fmt.Sprintf("scenario %d: puppet %s could not handshake with the relay", sc, id.Name))
@@ -240,6 +244,7 @@ func TestVerifC39(t *testing.T) {
 					case 0:
 						s0.nextIdx++
 						s0.requested[s0.nextIdx] = t0.p.Ident.Addr()
+						s0.requestedAll[s0.nextIdx] = append(s0.requestedAll[s0.nextIdx], t0.p.Ident.Addr())
 						logf("%d: %s REQUEST (honest prologue) idx=%d to=%s", i, s0.name, s0.nextIdx, t0.p.Ident.Addr())
 						send(s0, header.Control, 0, c39Ctl(ver, NebulaControl_CreateRelayRequest, s0.nextIdx, 0, s0.p.Ident.Addr(), t0.p.Ident.Addr()))
 					case 1:
@@ -249,6 +254,7 @@ func TestVerifC39(t *testing.T) {
 							f, to := c39MsgAddrs(rq)
 							t0.nextIdx++
 							t0.confirmed[t0.nextIdx] = t0.askedByR[rq.InitiatorRelayIndex]
+							t0.confirmedAll[t0.nextIdx] = append(t0.confirmedAll[t0.nextIdx], t0.askedByR[rq.InitiatorRelayIndex])
 							logf("%d: %s RESPONSE (honest prologue) ini=%d my=%d", i, t0.name, rq.InitiatorRelayIndex, t0.nextIdx)
 							send(t0, header.Control, 0, c39Ctl(ver, NebulaControl_CreateRelayResponse, rq.InitiatorRelayIndex, t0.nextIdx, f, to))
 							r.Count("onward_legs_confirmed_by_target", 1)
@@ -293,6 +299,13 @@ func TestVerifC39(t *testing.T) {
 					k := 1 + rng.IntN(2)*rng.IntN(2)
 					logf("%d: %s REQUEST x%d idx=%d from=%s to=%s", i, c.name, k, idx, from, to)
 					c.requested[idx] = to
+					c.requestedAll[idx] = append(c.requestedAll[idx], to)
+					if from.IsValid() {
+						// the requester itself attached this relay-from address to its index (a request naming R as the target is
+						// how a relay hands over someone else's traffic): packets of that address arriving on the index are what
+						// the requester asked for
+						c.requestedAll[idx] = append(c.requestedAll[idx], from)
+					}
 					for j := 0; j < k; j++ {
 						send(c, header.Control, 0, c39Ctl(ver, NebulaControl_CreateRelayRequest, idx, 0, from, to))
 					}
@@ -310,6 +323,7 @@ func TestVerifC39(t *testing.T) {
 					honest := rng.IntN(4) != 0
 					if honest {
 						c.confirmed[my] = c.askedByR[rq.InitiatorRelayIndex]
+						c.confirmedAll[my] = append(c.confirmedAll[my], c.askedByR[rq.InitiatorRelayIndex])
 						logf("%d: %s RESPONSE honest ini=%d my=%d from=%s to=%s", i, c.name, rq.InitiatorRelayIndex, my, f, to)
 						send(c, header.Control, 0, c39Ctl(ver, NebulaControl_CreateRelayResponse, rq.InitiatorRelayIndex, my, f, to))
 						r.Count("onward_legs_confirmed_by_target", 1)
@@ -325,8 +339,10 @@ func TestVerifC39(t *testing.T) {
 						}
 						// whatever addresses it writes, a response confirms the request of R that carries its initiator index (or nothing)
 						c.confirmed[my] = c.askedByR[ii]
+						c.confirmedAll[my] = append(c.confirmedAll[my], c.askedByR[ii])
 						if tgt, ok := c.legByRIdx[ii]; ok {
 							c.requested[my] = tgt
+							c.requestedAll[my] = append(c.requestedAll[my], tgt)
 						}
 						logf("%d: %s RESPONSE lying ini=%d (asked %d) my=%d from=%s to=%s", i, c.name, ii, rq.InitiatorRelayIndex, my, f, to)
 						send(c, header.Control, 0, c39Ctl(ver, NebulaControl_CreateRelayResponse, ii, my, f, to))
@@ -340,10 +356,20 @@ func TestVerifC39(t *testing.T) {
 					c.nextIdx++
 					my := c.nextIdx
 					f, to := addrPool(), addrPool()
+					if o := pups[rng.IntN(np)]; o != c && len(o.pendingRq) > 0 && rng.IntN(2) == 0 {
+						// a third peer answers in place of the target: it names the pair and carries the initiator index of a
+						// request R sent to ANOTHER peer and that peer has not answered (an index it observed or guessed)
+						rq := o.pendingRq[rng.IntN(len(o.pendingRq))]
+						ii = rq.InitiatorRelayIndex
+						f, to = c39MsgAddrs(rq)
+						r.Count("responses_by_a_third_peer_for_a_pending_onward_leg", 1)
+					}
 					c.confirmed[my] = c.askedByR[ii]
+					c.confirmedAll[my] = append(c.confirmedAll[my], c.askedByR[ii])
 					if tgt, ok := c.legByRIdx[ii]; ok {
 						// answering on the index R gave me for my own leg re-negotiates my end of that leg onto index `my`
 						c.requested[my] = tgt
+						c.requestedAll[my] = append(c.requestedAll[my], tgt)
 					}
 					logf("%d: %s RESPONSE unsolicited ini=%d my=%d from=%s to=%s", i, c.name, ii, my, f, to)
 					send(c, header.Control, 0, c39Ctl(ver, NebulaControl_CreateRelayResponse, ii, my, f, to))
@@ -413,12 +439,20 @@ func TestVerifC39(t *testing.T) {
 						// choosing it in its own CreateRelayRequest (for target t). The sender must be that f / t.
 						cf, okC := e.to.confirmed[e.h.RemoteIndex]
 						tg, okR := e.to.requested[e.h.RemoteIndex]
+						everConfirmed := slices.ContainsFunc(e.to.confirmedAll[e.h.RemoteIndex], func(x c39Confirm) bool {
+							return x.from.IsValid() && slices.Contains(c.p.Ident.Addrs(), x.from)
+						})
+						everRequested := slices.ContainsFunc(e.to.requestedAll[e.h.RemoteIndex], func(t netip.Addr) bool { return slices.Contains(c.p.Ident.Addrs(), t) })
 						switch {
 						case okC && cf.from.IsValid() && slices.Contains(c.p.Ident.Addrs(), cf.from):
 							r.Count("legitimate_forwards", 1)
 						case okR && slices.Contains(c.p.Ident.Addrs(), tg):
 							r.Count("legitimate_forwards", 1)
 							r.Count("legitimate_forwards_on_return_leg", 1)
+						case everConfirmed || everRequested:
+							// the receiver itself attached several pairs to this index value of its own; this is one of them
+							r.Count("legitimate_forwards", 1)
+							r.Count("legitimate_forwards_on_an_index_the_receiver_reused", 1)
 						case (!okC || !cf.from.IsValid()) && !okR:
 							r.Violation("C39/forwarded-on-unconfirmed-onward-leg", fmt.Sprintf("scenario %d: packet from %s forwarded to %s on index %d which %s never negotiated", sc, c.name, e.to.name, e.h.RemoteIndex, e.to.name), rec)
 						default:
